@@ -34,6 +34,7 @@ EXECUTORS = {
     "dij": [("exec/exec_dij.cpp", "-DDJ_GROUP=%d" % k) for k in range(2)] + [("exec/registry.cpp", '-DVERIF_EXEC_NAME="dij(C12,C19)"')],
     "text": [("exec/exec_text.cpp", "-DTX_GROUP=%d" % k) for k in range(5)] + [("exec/registry.cpp", '-DVERIF_EXEC_NAME="text(C13)"')],
     "bin": [("exec/exec_bin.cpp", "-DBN_GROUP=%d" % k) for k in range(4)] + [("exec/registry.cpp", '-DVERIF_EXEC_NAME="bin(C14,C15)"')],
+    "conc": [("exec/exec_conc.cpp", "-DCC_GROUP=%d" % k) for k in range(5)] + [("exec/registry.cpp", '-DVERIF_EXEC_NAME="conc(C18)"')],
     "eq": [("exec/exec_eq.cpp", "-DEQ_GROUP=%d" % k) for k in range(6)] + [("exec/exec_eq.cpp", "-DEQ_DISPATCH")],
 }
 
